@@ -1,0 +1,56 @@
+// Copyright 2025 The Go MCP SDK Authors. All rights reserved.
+// Use of this source code is governed by an MIT-style
+// license that can be found in the LICENSE file.
+
+//go:build verif
+
+package mcp
+
+import (
+	"sync"
+	"time"
+)
+
+// Timer registry for the leak monitor: records the timers the SDK creates with
+// time.AfterFunc on behalf of an owner (a *StreamableHTTPHandler for session
+// idle timers, a *Server for list-changed debounce timers) while recording is
+// switched on.
+var verifTimers struct {
+	mu sync.Mutex
+	on bool
+	m  map[any][]*time.Timer
+}
+
+// VerifRecordTimers switches the registry on or off (off by default).
+func VerifRecordTimers(on bool) {
+	verifTimers.mu.Lock()
+	defer verifTimers.mu.Unlock()
+	verifTimers.on = on
+	if verifTimers.m == nil {
+		verifTimers.m = map[any][]*time.Timer{}
+	}
+}
+
+func verifTimerCreated(owner any, t *time.Timer) {
+	verifTimers.mu.Lock()
+	defer verifTimers.mu.Unlock()
+	if verifTimers.on && t != nil {
+		verifTimers.m[owner] = append(verifTimers.m[owner], t)
+	}
+}
+
+// VerifStopArmedTimers stops every recorded timer of owner, forgets them, and
+// reports how many were recorded and how many of them were still armed (Stop
+// returned true: neither fired nor stopped).
+func VerifStopArmedTimers(owner any) (recorded, armed int) {
+	verifTimers.mu.Lock()
+	ts := verifTimers.m[owner]
+	delete(verifTimers.m, owner)
+	verifTimers.mu.Unlock()
+	for _, t := range ts {
+		if t.Stop() {
+			armed++
+		}
+	}
+	return len(ts), armed
+}
